@@ -428,7 +428,7 @@ def constraints_case(draw, tier="quick"):
 
 LEGS = [
     Leg(name="temporal", run=run_temporal, strategy=lambda tier: temporal_case(tier),
-        quick=400, thorough=4000, quick_shards=4, thorough_shards=8, nt_floor=0.15,
+        quick=400, thorough=4000, quick_shards=4, thorough_shards=8, nt_floor=0.15, fuzz_runs=10_000,
         rule="record in a generated ring state (6 storage kinds) then dt/duration/inclusive assignments interleaved with "
              "pushes and pointer moves; non-trivial = a size change with pointer != 0 after >= N pushes, or a size change on "
              "uninitialised storage"),
